@@ -5,6 +5,7 @@ import (
 	"fmt"
 	"image"
 	"image/color"
+	"math"
 	"runtime"
 	"sync"
 	"sync/atomic"
@@ -599,6 +600,9 @@ type StoreCase struct {
 type StoreStep struct {
 	Sel uint8      `json:"sel"`
 	C   ops.ColorV `json:"c"`
+	// LODOut: the write is made while the level-of-detail range excludes the target height
+	// (registers are written whatever the range is; it only decides whether paths are drawn).
+	LODOut bool `json:"lod_out,omitempty"`
 }
 
 func checkStoredBlends(c StoreCase) error {
@@ -610,7 +614,13 @@ func checkStoredBlends(c StoreCase) error {
 	creg := pal
 	for i, w := range c.Writes {
 		z.SetCSel(w.Sel)
+		if w.LODOut {
+			z.SetLOD(100, 200)
+		}
 		z.SetCReg(0, false, w.C.Color())
+		if w.LODOut {
+			z.SetLOD(0, float32(math.Inf(1)))
+		}
 		creg[w.Sel&63] = spec.Resolve(w.C, &pal, &creg)
 		want := creg[w.Sel&63]
 		n0 := len(rr.Calls)
@@ -635,7 +645,7 @@ func checkStoredBlends(c StoreCase) error {
 	return nil
 }
 
-var subStore = harness.Define("stored-blend", "sequences of 3-12 colour-register writes into a Renderer (blends of registers and palette entries, plain colours, the same blend written again after one of its operand registers changed), a path filled from the written register after every write: the flat paint equals the blend formula on the register contents at the time of the write; non-trivial = a blend is written again after an operand register changed", checkStoredBlends)
+var subStore = harness.Define("stored-blend", "sequences of 3-12 colour-register writes into a Renderer (blends of registers and palette entries, plain colours incl. nonsensical ones, writes made while the level-of-detail range excludes the target, the same blend written again after one of its operand registers changed), a path filled from the written register after every write: the flat paint equals the blend formula on the register contents at the time of the write; non-trivial = a blend is written again after an operand register changed", checkStoredBlends)
 
 func TestStoredBlends(t *testing.T) {
 	harness.Rapid(t, harness.N(6000, 16*60000), func(t *rapid.T) {
@@ -655,6 +665,9 @@ func TestStoredBlends(t *testing.T) {
 			switch k := rapid.IntRange(0, 5).Draw(t, "kind"); {
 			case k == 0:
 				cv = ops.RGBAv(gen.ValidRGBA(t, "plain"))
+				if rapid.IntRange(0, 2).Draw(t, "odd") == 0 {
+					cv = ops.RGBAv(gen.AnyRGBA(t, "oddplain")) // also values that are not premultiplied: stored as they are
+				}
 			case k == 1 && i >= 2:
 				// the blend written two steps ago, again: one of its operands has usually changed
 				cv = c.Writes[i-2].C
@@ -667,7 +680,7 @@ func TestStoredBlends(t *testing.T) {
 					cv.B = 0x80 | uint8(rapid.IntRange(0, 63).Draw(t, "palidx"))
 				}
 			}
-			c.Writes = append(c.Writes, StoreStep{Sel: sel, C: cv})
+			c.Writes = append(c.Writes, StoreStep{Sel: sel, C: cv, LODOut: rapid.IntRange(0, 4).Draw(t, "lodout") == 0})
 		}
 		subStore.See(c, again, harness.HashJSON(c))
 		subStore.Run(t, c)
